@@ -11,6 +11,11 @@ Theorem C18_src_distance_iterator_is_model : forall c2x r extra,
   src_distances_run (length (points r) + extra) (src_DistanceIterator_new c2x r) = map (sm_dist_item c2x) (points r).
 Proof. exact src_distances_eq. Qed.
 
+(* round 5: DistanceIterator::empty yields nothing and stays empty (fuel 1 suffices) *)
+Theorem C18_src_distance_iterator_empty_yields_nothing : forall F, (1 <= F)%nat ->
+  src_DistanceIterator_next F src_DistanceIterator_empty = Some (src_DistanceIterator_empty, None).
+Proof. intros [|F] H; [lia|]. destruct F; vm_compute; reflexivity. Qed.
+
 Example C18_src_nonvacuous :
   src_distances_run 5 (src_DistanceIterator_new (P 2 2) (R (P 0 0) (S 2 1))) = [(P 0 0, P (-2) (-2), 8); (P 1 0, P 0 (-2), 4)].
 Proof. vm_compute. reflexivity. Qed.
